@@ -963,7 +963,7 @@ def run_xpath(case, cx):
         if bad:
             key = cmp_key(kind, a, b, exp_map, got_map, xsd)
             if rel == 'mixed' and implicit and got_map == model_cmp(a, b, 0) and \
-                    key != 'C11/compare/year-field-ordered-before-instant':
+                    key.startswith('C11/compare/tz-'):
                 key = 'C11/compare/implicit-timezone-ignored'
             elif rel == 'mixed' and key.startswith('C11/compare/tz-'):
                 key += '/implicit'
@@ -1121,8 +1121,6 @@ def run_xpath(case, cx):
         shift = None if (a[7] is None or target is None) else target - a[7]
 
         def attr():
-            if kind == 'date' and shift is not None and abs(shift) >= 1440:
-                return 'C11/adjust/date/shift-of-24h-or-more'
             if kind == 'time' or a[7] is None or target is None:
                 return None
             k = attribute_daytime(cx, kind, xsd, a, exp)
@@ -1134,7 +1132,7 @@ def run_xpath(case, cx):
                 rr = call(API_CLS[('dateTime', xsd)].fromdelta, us_td(us))
                 if rr[0] != 'ok' or lib_value(rr[1], 'dateTime') != w:
                     return fromdelta_key('dateTime', w)
-            return 'C11/adjust/date/to-earlier-timezone' if shift < 0 else None
+            return None
         ok = compare_value(cx, r, kind, xsd, exp,
                            'C11/adjust/%s/%s/%s' % (kind, mode, yclass(exp[0]) if kind != 'time' else 'time'),
                            {'expr': expr, 'implicit_tz': tz}, in_core(a, exp), attribute=attr)
